@@ -145,16 +145,21 @@ def name_regex_builder(repo):
     return None, None, fi
 
 
-def whole_word_occurrences(line: str, name: str):
-    """Starts of the case-insensitive whole-word occurrences of name (identifier characters: word chars and $)."""
+def whole_word_occurrences(line: str, name: str, kinds: bool = True):
+    """Starts of the case-insensitive candidate occurrences of name (identifier characters: word chars and $): whole
+    words, except the exponent of a real literal written `1.n`; plus the kind parameter of a literal (`1_n`, `1._n`).
+    Candidates are confirmed one by one through get_definition, so the second class may over-approximate (`x1_n`)."""
     out = []
     low, nm = line.lower(), name.lower()
     i = low.find(nm)
+    ident = lambda c: c.isalnum() or c in "_$"  # noqa: E731
     while i >= 0:
         before = low[i - 1] if i > 0 else " "
+        before2 = low[i - 2] if i > 1 else " "
         after = low[i + len(nm)] if i + len(nm) < len(low) else " "
-        ident = lambda c: c.isalnum() or c in "_$"  # noqa: E731
-        if not ident(before) and not ident(after):
+        word = not ident(before) and not (before == "." and before2.isdigit())
+        kind = kinds and before == "_" and (before2.isdigit() or before2 == ".")
+        if not ident(after) and (word or kind):
             out.append(i)
         i = low.find(nm, i + 1)
     return out
@@ -185,7 +190,7 @@ def regex_items(repo, tier):
                       detail=f"bounded: {len(names)} identifiers incl. ones with `$`; regex source: {src}",
                       witness=bad, confirmed=True if bad else None))
     # occurrence lemma
-    alphabet = ["n", "x", "_", "$", "=", "+", "(", " ", "'", "!", "N"]
+    alphabet = ["n", "x", "_", "$", "=", "+", "(", " ", "'", "!", "N", "1", "."]
     bound = 6 if tier == "thorough" else 5
     bad = None
     cnt = 0
@@ -226,11 +231,25 @@ def expand_name_items(repo, tier):
     for ln in range(1, bound + 1):
         for tup in itertools.product(alphabet, repeat=ln):
             line = "".join(tup)
-            for s_ in whole_word_occurrences(line, "n"):
+            for s_ in whole_word_occurrences(line, "n", kinds=False):
                 cnt += 1
                 got = expand_name(line, s_ + 1)
                 if got.lower() != "n":
                     bad = {"line": line, "probe_column": s_ + 1, "expand_name": got, "expected": "n"}
+                    break
+            # a kind-parameter candidate: the name if what precedes the underscore is a numeric literal standing alone,
+            # otherwise anything but a false confirmation of the name inside a longer identifier
+            for s_ in set(whole_word_occurrences(line, "n")) - set(whole_word_occurrences(line, "n", kinds=False)):
+                cnt += 1
+                got = expand_name(line, s_ + 1)
+                head = line[:s_ - 1]
+                j = len(head)
+                while j > 0 and (head[j - 1].isalnum() or head[j - 1] in "._$"):
+                    j -= 1
+                tok = head[j:]
+                is_literal = re.fullmatch(r"(?:\d+\.?\d*|\.\d+)(?:[ed][+-]?\d+)?", tok, re.I) is not None
+                if is_literal and got.lower() != "n":
+                    bad = {"line": line, "probe_column": s_ + 1, "expand_name": got, "expected": "n (kind parameter of the literal %r)" % tok}
                     break
             if bad:
                 break
@@ -503,7 +522,7 @@ def native_kind_suffix():
              "params": {"textDocument": {"uri": uri}, "position": {"line": 1, "character": 24}, "context": {"includeDeclaration": True}}}])
         got = sorted((x["range"]["start"]["line"], x["range"]["start"]["character"])
                      for m in out if m.get("id") == 1 for x in (m.get("result") or []))
-        want = [(1, 24), (2, 7), (3, 10), (3, 22), (4, 16)]
+        want = [(1, 24), (2, 7), (3, 10), (3, 21), (4, 16)]
         if got != want:
             return {"source": text, "entity": "the named constant dp", "expected": want, "returned": got}
         return None
